@@ -414,7 +414,7 @@ func (e *c02Env) runLoad(r *Run, rng *Rng, c *c02Flat) {
 		r.Checked("load-emu-vs-timing")
 		sig := "C02.load-differs." + name
 		if c.straddles() {
-			sig += ".straddle"
+			sig = "C02.load-differs.straddle"
 		}
 		r.Failf(sig, line, "emulator: %s  timing: %s", eout, tout)
 	default:
@@ -510,7 +510,7 @@ func (e *c02Env) runStore(r *Run, rng *Rng, c *c02Flat) {
 	if eout != tout {
 		sig := "C02.store-differs." + name
 		if c.straddles() {
-			sig += ".straddle"
+			sig = "C02.store-differs.straddle"
 		}
 		r.Failf(sig, line, "emulator: %s  timing: %s", eout, tout)
 	}
@@ -730,7 +730,7 @@ func (e *c02Env) runSmem(r *Run, rng *Rng, opc, sdst int, start uint64, seed uin
 	case eout != tv:
 		sig := fmt.Sprintf("C02.smem-differs.x%d", 1<<uint(opc))
 		if start%4 != 0 {
-			sig += ".unaligned"
+			sig = "C02.smem-differs.unaligned"
 		}
 		r.Failf(sig, line, "emulator: %s  timing: %s", eout, tv)
 	}
